@@ -129,6 +129,12 @@ def src(e):
         return PRIM_CALL[op] + "(" + ", ".join(src(a) for a in args) + ")"
     if t == "eval":
         return 'eval("' + esc(src(e[1])) + '")'
+    if t == "switch":
+        arms = []
+        for p, b in e[2]:
+            ps = str(p[1]) if p[0] == "lit" else (p[1] if p[0] == "bind" else "_")
+            arms.append(f" case {ps} -> {src(b)}")
+        return f"(switch ({src(e[1])})" + "".join(arms) + ")"
     raise ValueError(t)
 
 
@@ -194,6 +200,12 @@ def sx(e):
         return f"(prim {e[1]}" + "".join(" " + sx(a) for a in e[2]) + ")"
     if t == "eval":
         return "(eval " + sx(e[1]) + ")"
+    if t == "switch":
+        arms = []
+        for p, b in e[2]:
+            ps = f"(lit {p[1]})" if p[0] == "lit" else (f"(bind {p[1]})" if p[0] == "bind" else "(wild)")
+            arms.append(f" ({ps} {sx(b)})")
+        return f"(switch {sx(e[1])}" + "".join(arms) + ")"
     raise ValueError(t)
 
 
@@ -241,6 +253,9 @@ def children(e):
             out.append(((2, i, 1), a[1]) if a[0] == "splat" else ((2, i), a))
     elif t == "prim":
         out += [((2, i), a) for i, a in enumerate(e[2])]
+    elif t == "switch":
+        out.append(((1,), e[1]))
+        out += [((2, i, 1), arm[1]) for i, arm in enumerate(e[2])]
     return out
 
 
@@ -312,6 +327,7 @@ class Gen:
         self.scopes = [{}]
         self.loops = 0       # enclosing loops (through lambdas too: break crosses calls)
         self.in_fn = 0
+        self.last_ret = "a"
 
     # -- scopes
     def push(self):
@@ -394,14 +410,16 @@ class Gen:
             if c < 0.60:
                 return P("not", self.expr("a", d + 1))
             if c < 0.74:
-                return self.call(d)
+                return self.call(d, "i")
             if c < 0.80:
-                return ("if", self.expr("i", d + 1), self.expr("i", d + 1), self.expr("i", d + 1) if r.random() < 0.8 else None)
+                return ("if", self.expr("i", d + 1), self.expr("i", d + 1), self.expr("i", d + 1) if r.random() < 0.95 else None)
             if c < 0.88:
                 return (r.choice(["and", "or", "coal"]), self.expr("a", d + 1), self.effect_expr(d + 1))
-            if c < 0.93:
+            if c < 0.92:
                 return self.block("i", d)
-            if c < 0.97:
+            if c < 0.95:
+                return self.switch_expr(d, "i")
+            if c < 0.98:
                 return ("try", self.risky(d + 1), "e", self.in_scope({"e": "a"}, lambda: self.expr("i", d + 1)))
             return self.loop_expr(d)
         if kind == "l":
@@ -439,7 +457,7 @@ class Gen:
         c = r.random()
         vs = self.visible("i")
         if c < 0.4:
-            return P("print", self.expr("i", d + 1))
+            return SEQ(P("print", self.expr("i", d + 1)), self.expr("i", d + 1))
         if c < 0.7 and vs:
             x = r.choice(vs)
             return SEQ(("asg", x, P("add", V(x), I(1))), V(x))
@@ -489,9 +507,10 @@ class Gen:
         nmax = 9 if any(p[0] == "splat" for p in ps) else len(ps)
         self.in_fn += 1
         loops, self.loops = self.loops, self.loops if r.random() < 0.3 else 0
-        body = self.in_scope(decls, lambda: self.fn_body(d + 1))
+        body, rk = self.in_scope(decls, lambda: self.fn_body(d + 1))
         self.loops = loops
         self.in_fn -= 1
+        self.last_ret = rk
         return ("lam", ps, body), (nmin, nmax)
 
     def fn_body(self, d):
@@ -500,24 +519,31 @@ class Gen:
         vi = self.visible("i")
         if c < 0.25 and vi:
             x = r.choice(vi)          # mutate a captured / own variable
-            return SEQ(("asg", x, P("add", V(x), self.expr("i", d + 1))), V(x))
+            return SEQ(("asg", x, P("add", V(x), self.expr("i", d + 1))), V(x)), "i"
         if c < 0.40:
-            return self.lam(d)[0] if d < self.maxdepth - 1 else self.expr("i", d + 1)   # returns a closure
+            if d < self.maxdepth - 1:
+                return self.lam(d)[0], "f"                                               # returns a closure
+            return self.expr("i", d + 1), "i"
         if c < 0.55:
             ss = [self.stmt(d + 1) for _ in range(r.randint(1, 2))]
+            k = r.choice("iiia")
             if r.random() < 0.5:
-                ss.append(("if", self.expr("i", d + 1), ("ret", self.expr("a", d + 1) if r.random() < 0.8 else None), None))
-            return SEQ(*ss, self.expr("a", d + 1))
+                ss.append(("if", self.expr("i", d + 1), ("ret", self.expr("i", d + 1) if r.random() < 0.8 else None), None))
+            return SEQ(*ss, self.expr(k, d + 1)), k
         if c < 0.62:
-            return ("throw", self.expr("i", d + 1))
+            return ("throw", self.expr("i", d + 1)), "i"
         if c < 0.70 and self.loops:
-            return self.jump(d)
-        return self.expr("a", d + 1)
+            return self.jump(d), "i"
+        k = r.choice("iiiila")
+        return self.expr(k, d + 1), k
 
-    def call(self, d):
+    def call(self, d, want=None):
         r = self.r
         self.spend()
         fs = [(x, k) for s in self.scopes for x, k in s.items() if k[0] == "f"]
+        if want is not None and r.random() < 0.85:
+            good = [(x, k) for x, k in fs if len(k) > 2 and k[2] == want]
+            fs = good or fs
         c = r.random()
         if fs and c < 0.75:
             x, k = r.choice(fs)
@@ -551,8 +577,15 @@ class Gen:
             return V(r.choice(["u", "w"]))                       # undeclared
         if c < 0.6:
             return ("asg", r.choice(["u", "w"]), I(1))           # assignment to undeclared
-        if c < 0.75:
+        if c < 0.7:
             return self.call(d)
+        if c < 0.85:                                             # signals other than throw must pass through try
+            opts = [("ret", self.expr("i", d + 1))] if (self.in_fn or r.random() < 0.2) else []
+            if self.loops or r.random() < 0.2:
+                opts.append(self.jump(d))
+            if opts:
+                j = r.choice(opts)
+                return SEQ(("if", self.expr("i", d + 1), j, None), self.expr("i", d + 1)) if r.random() < 0.5 else j
         return self.block("a", d)
 
     def jump(self, d):
@@ -650,6 +683,21 @@ class Gen:
     def loop_expr(self, d):
         return self.while_expr(d) if self.r.random() < 0.4 else self.for_expr(d)
 
+    def switch_expr(self, d, kind="a"):
+        r = self.r
+        self.spend(2)
+        sc = self.expr("i", d + 1)
+        arms = []
+        for _ in range(r.randint(0, 2)):
+            arms.append((("lit", r.choice([0, 1, 2, 3, 5])), self.in_scope({}, lambda: self.stmt(d + 1) if r.random() < 0.4 else self.expr(kind, d + 1))))
+        c = r.random()
+        if c < 0.55:
+            x = self.fresh(INT_NAMES)
+            arms.append((("bind", x), self.in_scope({x: "i"}, lambda: self.block(kind, d) if r.random() < 0.5 else self.expr(kind, d + 1))))
+        elif c < 0.85 or not arms:
+            arms.append((("wild",), self.in_scope({}, lambda: self.expr(kind, d + 1))))
+        return ("switch", sc, arms)
+
     # -- statements (may declare in the current scope)
     def stmt(self, d):
         r = self.r
@@ -662,7 +710,7 @@ class Gen:
             if kind == "f":
                 e, ar = self.lam(d + 1)
                 x = self.fresh(FN_NAMES)
-                self.declare(x, ("f", ar))
+                self.declare(x, ("f", ar, self.last_ret))
                 return ("decl", x, e)
             e = self.expr(kind, d + 1)
             x = self.fresh(INT_NAMES if kind == "i" else LIST_NAMES)
@@ -670,6 +718,10 @@ class Gen:
             return ("decl", x, e)
         if c < 0.36:
             vs = self.visible("i") + self.visible("l")
+            if len(self.scopes) >= 3 and r.random() < 0.6:
+                # prefer a variable declared two or more scopes further out
+                far = [x for sc in self.scopes[:-2] for x, k in sc.items() if k[0] in "il" and not any(x in s2 for s2 in self.scopes[-2:])]
+                vs = far or vs
             if vs:
                 x = r.choice(vs)
                 if x in self.visible("l"):
@@ -682,7 +734,7 @@ class Gen:
             self.declare(x, "i")
             return ("decl", x, e)
         if c < 0.46:
-            return P("print", *[self.expr(r.choice("iiila"), d + 1) for _ in range(r.randint(1, 2))])
+            return P("print", *[self.expr(r.choice("iiil"), d + 1) for _ in range(r.randint(1, 2))])
         if c < 0.58:
             return self.loop_expr(d)
         if c < 0.66:
@@ -691,8 +743,10 @@ class Gen:
         if c < 0.74:
             h = self.in_scope({"e": "a"}, lambda: self.stmt(d + 1) if r.random() < 0.5 else self.expr("a", d + 1))
             return ("try", self.risky(d + 1), "e", h)
-        if c < 0.80:
+        if c < 0.78:
             return self.call(d)
+        if c < 0.81:
+            return self.switch_expr(d)
         if c < 0.84:
             # destructuring declaration / assignment
             if r.random() < 0.6:
@@ -719,11 +773,11 @@ class Gen:
     # -- idioms the property statement singles out
     def idiom(self, d):
         r = self.r
-        c = r.randint(0, 6)
+        c = r.randint(0, 7)
         self.spend(6)
         if c == 0:      # counter factory: closure escaping its defining call
             mk, f, cn = self.fresh(["mk", "h"], False), self.fresh(["f", "g"], False), r.choice(["c", "n"])
-            self.declare(mk, ("f", (0, 0))); self.declare(f, ("f", (0, 0)))
+            self.declare(mk, ("f", (0, 0), "f")); self.declare(f, ("f", (0, 0), "i"))
             start = r.randint(0, 5)
             return SEQ(("decl", mk, ("lam", [], SEQ(("decl", cn, I(start)), ("lam", [], SEQ(("asg", cn, P("add", V(cn), I(1))), V(cn)))))),
                        ("decl", f, ("call", V(mk), [])), ("call", V(f), []),
@@ -751,31 +805,50 @@ class Gen:
                 ("while", I(1), SEQ(("decl", x, I(30)), P("print", V(x)), ("break", 0, None))),
                 ("try", ("throw", I(40)), x, P("print", V(x))),
                 ("for", [("let", x, I(50))], ("do", SEQ(("asg", x, P("add", V(x), I(1))), P("print", V(x))))),
+                ("switch", I(60), [(("lit", 1), I(0)), (("bind", x), SEQ(("asg", x, P("add", V(x), I(1))), P("print", V(x))))]),
+                ("switch", I(1), [(("lit", 1), SEQ(("decl", x, I(70)), P("print", V(x)))), (("wild",), I(0))]),
             ])
             return SEQ(("decl", x, I(v)), inner, P("print", V(x)))
         if c == 3:      # multi-level break with yield
             x, y = r.sample(["x", "y", "z"], 2)
             lv = r.choice([0, 1, 1, 2])
             val = r.choice([None, P("add", V(x), V(y))])
-            return ("for", [("it", x, ("list", [I(1), I(2), I(3)]))],
-                    ("yield", ("for", [("it", y, ("list", [I(10), I(20)]))],
-                               ("yield", SEQ(("if", P("eq", P("add", V(x), V(y)), I(r.choice([12, 21, 22, 23]))), ("break", lv, val), None),
-                                             P("add", V(x), V(y)))))))
+            sig = ("break", lv, val) if r.random() < 0.6 else ("cont", lv)
+            cond = ("if", P("eq", P("add", V(x), V(y)), I(r.choice([12, 21, 22, 23]))), sig, None)
+            if r.random() < 0.6:
+                inner = ("for", [("it", y, ("list", [I(10), I(20)]))], ("yield", SEQ(cond, P("add", V(x), V(y)))))
+            elif r.random() < 0.5:
+                inner = SEQ(("for", [("it", y, ("list", [I(10), I(20)]))], ("do", SEQ(cond, P("print", V(x), V(y))))), V(x))
+            else:
+                k = self.fresh(["k", "n"], False)
+                inner = SEQ(("decl", k, I(0)), ("while", P("lt", V(k), I(2)),
+                            SEQ(("asg", k, P("add", V(k), I(1))), ("decl", y, P("mul", V(k), I(10))), cond, P("print", V(x), V(y)))), V(x))
+            return ("for", [("it", x, ("list", [I(1), I(2), I(3)]))], ("yield" if r.random() < 0.7 else "do", inner))
         if c == 4:      # throw across calls, caught outside
             f, g = self.fresh(["f", "h"], False), self.fresh(["g", "mk"], False)
-            self.declare(f, ("f", (1, 1))); self.declare(g, ("f", (1, 1)))
+            self.declare(f, ("f", (1, 1), "i")); self.declare(g, ("f", (1, 1), "i"))
             return SEQ(("decl", f, ("lam", [("p", "p")], SEQ(("if", P("lt", I(1), V("p")), ("throw", V("p")), None), V("p")))),
                        ("decl", g, ("lam", [("p", "q")], SEQ(P("print", V("q")), P("add", ("call", V(f), [V("q")]), I(100))))),
                        ("for", [("it", "x", ("list", [I(1), I(2), I(3)]))], ("yield", ("try", ("call", V(g), [V("x")]), "e", P("mul", V("e"), I(-1))))))
         if c == 5:      # break / continue crossing a call boundary inside a loop
             f = self.fresh(["f", "g"], False)
-            self.declare(f, ("f", (1, 1)))
+            self.declare(f, ("f", (1, 1), "i"))
             sig = r.choice([("break", 0, V("p")), ("cont", 0), ("break", 0, None), ("ret", V("p"))])
             return SEQ(("decl", f, ("lam", [("p", "p")], SEQ(("if", P("eq", V("p"), I(2)), sig, None), P("mul", V("p"), I(10))))),
                        ("for", [("it", "x", ("list", [I(1), I(2), I(3)]))], (r.choice(["yield", "do"]), SEQ(P("print", V("x")), ("call", V(f), [V("x")])))))
+        if c == 7:      # writes to variables two and three frames out, from loops inside calls
+            a, t, f = self.fresh(["acc", "ys"], False), self.fresh(["n", "c", "z"], False), self.fresh(["f", "g"], False)
+            self.declare(a, "l"); self.declare(t, "i"); self.declare(f, ("f", (1, 1), "i"))
+            inner = SEQ(("asg", a, P("append", V(a), P("mul", V("p"), V("i")))), ("asg", t, P("add", V(t), I(1))))
+            loop = r.choice([("for", [("it", "i", ("list", [I(1), I(2)]))], ("do", inner)),
+                             ("for", [("it", "i", ("list", [I(1), I(2)])), ("let", "j", V("i"))], ("do", inner)),
+                             ("for", [("it", "i", ("list", [I(3)]))], ("do", ("call", ("lam", [], inner), [])))])
+            return SEQ(("decl", a, ("list", [])), ("decl", t, I(0)),
+                       ("decl", f, ("lam", [("p", "p")], SEQ(loop, V(t)))),
+                       P("print", ("call", V(f), [I(1)]), ("call", V(f), [I(5)])), P("print", V(a), V(t)))
         # defaults and splats
         f = self.fresh(["f", "g", "h"], False)
-        self.declare(f, ("f", (1, 3)))
+        self.declare(f, ("f", (1, 3), "l"))
         ps = r.choice([[("p", "p"), ("def", "q", P("add", V("p") if r.random() < 0.3 else I(5), I(1)))],
                        [("p", "p"), ("splat", "q")], [("splat", "p"), ("p", "q")], [("p", "p"), ("def", "q", I(4)), ("splat", "y")]])
         return SEQ(("decl", f, ("lam", ps, ("list", [V("p"), V("q")]))),
@@ -789,7 +862,7 @@ def gen_program(rng, maxnodes=25, maxdepth=5):
         ss = [g.stmt(1) for _ in range(rng.randint(1, 4))]
         ss.append(g.expr("a", 1))
         e = SEQ(*ss)
-        if size(e) <= maxnodes * 2 and depth(e) <= maxdepth + 4:
+        if size(e) <= maxnodes * 3 and depth(e) <= maxdepth + 6:
             return e
     return e
 
@@ -803,7 +876,7 @@ def small_programs(maxsize):
     def ex(n):
         out = []
         if n == 1:
-            out += [I(1), V("x"), V("f"), ("cont", 0), ("break", 0, None), ("ret", None)]
+            out += [I(1), V("x"), V("f"), ("cont", 0), ("cont", 1), ("break", 0, None), ("break", 1, None), ("ret", None)]
             return out
         for e in ex(n - 1):
             out += [("decl", "x", e), ("asg", "x", e), ("decl", "f", ("lam", [], e)), ("throw", e), ("break", 0, e),
@@ -813,7 +886,8 @@ def small_programs(maxsize):
             for ea in ex(a):
                 for eb in ex(b):
                     out += [SEQ(ea, eb), ("while", ea, eb), ("and", ea, eb), ("try", ea, "x", eb), ("call", ea, [eb]),
-                            ("for", [("it", "x", ("list", [ea]))], ("yield", eb)), ("if", ea, eb, None), P("add", ea, eb)]
+                            ("for", [("it", "x", ("list", [ea]))], ("yield", eb)), ("for", [("it", "x", ("list", [ea]))], ("do", eb)),
+                            ("if", ea, eb, None), P("add", ea, eb)]
         return out
     res = []
     for n in range(1, maxsize + 1):
@@ -964,7 +1038,7 @@ def report(ctx, rows, runner):
 
 def nontrivial(e, feats):
     """a program is non-trivial when it has a lambda, a loop or a try, i.e. something a scope or a signal can go wrong in"""
-    return any(k in feats for k in ("lam", "for", "while", "try"))
+    return any(k in feats for k in ("lam", "for", "while", "try", "switch"))
 
 
 def run(ctx):
@@ -976,7 +1050,7 @@ def run(ctx):
         corpus.append(tuplify(json.loads(f.read_text())["ast"]))
     n = ctx.n(1500, 40000)
     progs = corpus + [gen_program(rng) for _ in range(n)]
-    small = small_programs(ctx.n(4, 6))
+    small = small_programs(ctx.n(4, 5))
     rows = []
     for i in range(0, len(progs), 4000):
         rows += evaluate(progs[i:i + 4000], runner)
@@ -1008,7 +1082,7 @@ def run(ctx):
         "distinct_nontrivial": len(distinct),
         "rule": "generated programs (grammar-based, <= ~25 generator nodes, nesting <= 5 below idioms) on which both sides finished inside the vocabulary and agreed; "
                 "non-trivial = contains a lambda, a loop or a try; distinct by program text. The small-program sweep enumerates every "
-                f"program of <= {ctx.n(4, 6)} nodes over a reduced vocabulary (x, f, 1, :=, =, lambda, call, seq, while, and, try, for-yield, if, +, throw, break, continue, return).",
+                f"program of <= {ctx.n(4, 5)} nodes over a reduced vocabulary (x, f, 1, :=, =, lambda, call, seq, while, and, try, for-yield, for-do, if, +, throw, break, break break, continue, break continue, return).",
         "verdicts": verdicts,
         "constructs_in_agreeing_programs": dict(sorted(feats_total.items())),
         "size_histogram_nodes": sizes,
@@ -1026,7 +1100,7 @@ def tuplify(x):
     if isinstance(x, list):
         if x and isinstance(x[0], str) and x[0] in ("null", "int", "str", "list", "var", "seq", "decl", "asg", "decll", "asgl", "if", "while",
                                                      "for", "break", "cont", "ret", "try", "throw", "and", "or", "coal", "lam", "call", "prim",
-                                                     "eval", "splat", "it", "item", "let", "guard", "do", "yield", "yieldkv", "p", "def"):
+                                                     "eval", "splat", "it", "item", "let", "guard", "do", "yield", "yieldkv", "p", "def", "switch", "lit", "bind", "wild"):
             return tuple(tuplify(y) for y in x)
         return [tuplify(y) for y in x]
     return x
